@@ -279,7 +279,7 @@ CHECKS = {
                 ("; `gkh corefault` (exhaustive over a small family: 1..3 tasks due together / staggered / one later, 1..2 "
                  "slots, every assignment of {none, error without effect, error AFTER effect} to the first MarkAsDispatched "
                  "calls reaching the CORE repository below the wrapper and its timer hook): the driver runs to quiescence and "
-                 "the monitor of Gk/DrvCore.lean demands that nothing due is left scheduled or dispatched (finding D21; the "
+                 "the monitor of Gk/DrvCore.lean demands that nothing due is left scheduled or dispatched (defect D21, fixed; the "
                  "World automaton has no action for a fault at that layer, so this run is monitor-only)" if pid == "C20" else ""),
         "trusted_base": COMMON_TB + ["the dispatcher is simulated (contract of def.Dispatcher; the real one is tied by C08/C09)",
                                      "goroutine scheduling inside Step's select and the event queue is sampled, not proved"],
@@ -294,7 +294,7 @@ CHECKS = {
         ("C04", "hook-timer configuration: full; Retry of every error state included. Cron configuration: tied to CWorld, formal witnesses of open finding D18 (C04_D18_witness, C04_D18_runs_twice)."),
         ("C05", "PARTIAL: 'a worker is free / the queue is running' are hypotheses discharged by C08/C09's ties. The global progress theorem (C05_progress: bounded number of fair rounds until nothing is left scheduled) is proved for the hook-timer configuration; the cron configuration is tied to its model (CWorld) and monitored, its progress is not proved (and is false under open finding D18)."),
         ("C06", "hook-timer configuration; delivery through eventqueue's goroutines is sampled. The outcome the scheduler records is the one the dispatcher delivers: the real WorkerPoolDispatcher's result table (C09's 224 cells) is run here too, and a wrong delivered result of a work function that ran counts against C06."),
-        ("C20", "PARTIAL: inherits C03's open finding D3i; faults on every scheduler call incl. hook re-arming. Safety for every script; recovery: one fair fault-free Retry round resolves every retryable state and leaves no task dispatched-and-never-started (C20_recovery_eventual), under the driver discipline 'a retryable DispatchErr is answered with Retry'."),
+        ("C20", "PARTIAL: inherits C03's open finding D3i; faults on every scheduler call incl. hook re-arming. Safety for every script; recovery: one fair fault-free Retry round resolves every retryable state and leaves no task dispatched-and-never-started (C20_recovery_eventual), under the driver discipline 'a retryable DispatchErr is answered with Retry' (still needed for a task whose mark took effect: C20_step_over_dispatchErr_now; no longer needed for the timer invariant: C05_liveInv_step). The World automaton places faults at the scheduler / observable-repository boundary; an error AFTER effect one layer below (core repository, timer hook not told) is outside its alphabet and is decided by the exhaustive scenario family `gkh corefault` only (defect D21, found there and fixed by 7173c3b)."),
     )},
     "C10": {
         "family": "lin", "level": "proof", "modules": ["Gk.Props.C10"], "components": ["lin", "srcfacts-lock", "srcfacts-sql", "entproto"],
